@@ -5,7 +5,8 @@ package main
 // messages are rewritten on the wire), every protocol, every round, every outgoing message kind of E; the CBOR payload
 // is decoded into a generic tree (c03_cbor.go) and every field path is altered (boundary values, values copied from other
 // senders / rounds / fields, re-randomised valid-looking values, structural damage, recipient / round / sender substitution,
-// per-recipient different alterations). E is "rushing" (its target message is released after every honest message of
+// per-recipient different alterations; on p2p messages also header-level: the recipient field To cleared / set to another party /
+// set to the sender, alone and combined with every payload alteration). E is "rushing" (its target message is released after every honest message of
 // the round is known) and keeps the view digests it attaches consistent with what each recipient saw.
 // Oracle (c03_oracle.go): every honest party that FINISHED holds a signature valid under the Coq reference verifier for the
 // agreed message and the group key recorded at key generation, or key material consistent with all other honest finishers.
@@ -55,6 +56,10 @@ type c03Case struct {
 	// Order "p2p-first": E's broadcast of the same round is delivered only after the altered p2p messages (the handler then
 	// verifies the stored p2p message from inside the broadcast path); "" = E's broadcast first
 	Order string `json:"order,omitempty"`
+	// Hdr: header-level alteration of the recipient field `To` of E's p2p messages, applied on top of the field alteration
+	// and delivered to the ORIGINAL recipient: "to-cleared" (empty To: the form two-party sessions use), "to-other" (a third
+	// participant), "to-sender" (E itself), "to-explicit" (the recipient's id where the sender had left To empty); "" = untouched
+	Hdr string `json:"header,omitempty"`
 }
 
 func (cs c03Case) kind() string {
@@ -68,6 +73,9 @@ func (cs c03Case) key(prop string) string {
 	k := fmt.Sprintf("%s/%s/round%d/%s%s/%s", prop, cs.Proto, cs.Round, cs.kind(), cs.Field, cs.Alt)
 	if cs.Order != "" {
 		k += "/" + cs.Order
+	}
+	if cs.Hdr != "" {
+		k += "/" + cs.Hdr
 	}
 	return k
 }
@@ -94,6 +102,7 @@ type c03Outcome struct {
 	Honest     []c03Party
 	Cheater    c03Party
 	Deliveries int
+	CPUSec     float64 // wall time of this run on its worker goroutine
 }
 
 func (o *c03Outcome) class() string {
@@ -505,6 +514,22 @@ func c03ProtoFrostKeygen(m *c03Mat, tap bool) *c03Proto {
 			return frost.Keygen(curve.Secp256k1{}, id, ids, 1)
 		},
 		Judge: c03JudgeKeys(c03FrostKeyView, ids, 1, nil)}
+}
+
+// FROST refresh: the key generation rounds run on existing shares; every dealer's polynomial has constant term 0 (checked in
+// round 2 on the commitment), so a share of value 0 is "consistent" with the dealer's commitment at the evaluation point 0.
+// Every run restores private configs from bytes (Refresh aliases its input config).  Oracle: key-material consistency of the
+// honest finishers AND the group key unchanged.
+func c03ProtoFrostRefresh(m *c03Mat, tap bool) *c03Proto {
+	ids := m.ids
+	if tap {
+		return &c03Proto{Name: "taproot-frost-refresh", IDs: ids, SID: []byte("c03-tfr"),
+			Start: func(id party.ID) protocol.StartFunc { return frost.RefreshTaproot(m.freshTap(id), ids) },
+			Judge: c03JudgeKeys(c03FrostKeyView, ids, 1, func() []byte { return append([]byte{}, m.tapCfg[ids[0]].PublicKey...) })}
+	}
+	return &c03Proto{Name: "frost-refresh", IDs: ids, SID: []byte("c03-fr"),
+		Start: func(id party.ID) protocol.StartFunc { return frost.Refresh(m.freshFrost(id), ids) },
+		Judge: c03JudgeKeys(c03FrostKeyView, ids, 1, func() []byte { return c03BinOf(m.frostCfg[ids[0]].PublicKey) })}
 }
 
 func c03ProtoFrostSign(m *c03Mat, tap bool) *c03Proto {
@@ -1011,10 +1036,99 @@ func (a *c03AltEnv) apply(root *c03Node, path, alt string) (ok bool, note string
 		}
 		n.set(cands[a.rng.Intn(len(cands))])
 		return true, ""
+	case "copy-recipient":
+		// the value E sent to ANOTHER recipient in the same position (consistent with E's commitments at that recipient's point)
+		if !n.isLeaf() {
+			return false, ""
+		}
+		var cands []*c03Node
+		for _, m := range a.ownP2P() {
+			if m.To == a.toID() {
+				continue
+			}
+			if t := a.parsed(m); t != nil {
+				if x := t.find(path); x != nil && sameShape(x) && string(x.B) != string(n.B) {
+					cands = append(cands, x)
+				}
+			}
+		}
+		if len(cands) == 0 {
+			return false, "E sent no different value of this shape to another recipient"
+		}
+		n.set(cands[a.rng.Intn(len(cands))])
+		return true, ""
+	case "interp0":
+		// the value at the evaluation point 0 of the polynomial through the scalars E sent to ALL its recipients
+		// (for a dealt Shamir sharing of degree < #recipients this is the dealer's constant term f(0))
+		if c03NodeClass(n) != "scalar" {
+			return false, "not a scalar"
+		}
+		var xs, ys []*big.Int
+		for _, m := range a.ownP2P() {
+			if t := a.parsed(m); t != nil {
+				if x := t.find(path); x != nil && c03NodeClass(x) == "scalar" {
+					xs = append(xs, new(big.Int).Mod(new(big.Int).SetBytes([]byte(m.To)), c03TbQ))
+					ys = append(ys, new(big.Int).SetBytes(x.B))
+				}
+			}
+		}
+		if len(xs) < 2 {
+			return false, "E sent this scalar to fewer than two recipients"
+		}
+		v, ok := c03InterpolateAt0(xs, ys)
+		if !ok {
+			return false, "evaluation points not distinct"
+		}
+		return setB(v.FillBytes(make([]byte, 32))), ""
 	case "none":
 		return true, ""
 	}
 	return false, "unknown alteration " + alt
+}
+
+// ownP2P: E's own addressed p2p messages of the round under alteration, one per recipient, in emission order
+func (a *c03AltEnv) ownP2P() []*protocol.Message {
+	var out []*protocol.Message
+	seen := map[party.ID]bool{}
+	if n := a.s.Nodes[a.E]; n != nil {
+		for _, m := range n.Out {
+			if int(m.RoundNumber) == a.round && !m.Broadcast && m.To != "" && !seen[m.To] {
+				seen[m.To] = true
+				out = append(out, m)
+			}
+		}
+	}
+	return out
+}
+
+// toID: party id of the recipient the envelope under alteration is delivered to
+func (a *c03AltEnv) toID() party.ID {
+	if n := a.s.Nodes[a.to]; n != nil {
+		return n.ID
+	}
+	return a.to
+}
+
+// c03InterpolateAt0: Lagrange interpolation at 0 over the scalar field (the cheater's own arithmetic, plain math/big)
+func c03InterpolateAt0(xs, ys []*big.Int) (*big.Int, bool) {
+	acc := new(big.Int)
+	for j := range xs {
+		num, den := big.NewInt(1), big.NewInt(1)
+		for k := range xs {
+			if k == j {
+				continue
+			}
+			num.Mul(num, xs[k]).Mod(num, c03TbQ)
+			d := new(big.Int).Sub(xs[k], xs[j])
+			den.Mul(den, d.Mod(d, c03TbQ)).Mod(den, c03TbQ)
+		}
+		if den.Sign() == 0 {
+			return nil, false
+		}
+		l := num.Mul(num, new(big.Int).ModInverse(den, c03TbQ))
+		acc.Add(acc, l.Mul(l, ys[j])).Mod(acc, c03TbQ)
+	}
+	return acc, true
 }
 
 // ---------------------------------------------------------------------------------------------
@@ -1087,10 +1201,12 @@ func c03SplitAlt(alt string) (string, string, bool) {
 // altered, released; the run continues until no envelope is in flight.
 func c03Run(p *c03Proto, cs c03Case) (out *c03Outcome) {
 	out = &c03Outcome{Case: cs}
+	t0 := time.Now()
 	defer func() {
 		if r := recover(); r != nil {
 			out.Note = fmt.Sprint("harness panic: ", r)
 		}
+		out.CPUSec = time.Since(t0).Seconds()
 	}()
 	E := party.ID(cs.Cheater)
 	rng := rand.New(rand.NewSource(cs.Seed))
@@ -1175,8 +1291,68 @@ func c03Run(p *c03Proto, cs c03Case) (out *c03Outcome) {
 	return out
 }
 
-// c03Mutate rewrites all held envelopes of E according to the case and releases them.
+// c03HeaderAlts: header-level alterations of a p2p message, by whether the sender addressed it (To set) or not (To empty)
+func c03HeaderAlts(addressed bool, parties int) []string {
+	var hs []string
+	if addressed {
+		hs = append(hs, "to-cleared")
+	} else {
+		hs = append(hs, "to-explicit")
+	}
+	if parties >= 3 {
+		hs = append(hs, "to-other")
+	}
+	return append(hs, "to-sender")
+}
+
+// c03Mutate rewrites all held envelopes of E according to the case and releases them: first the payload (field- or
+// message-level alteration), then, if the case has one, the header-level alteration of `To`.  The envelope still goes to the
+// original recipient (E controls the wire).
 func c03Mutate(s *Sim, env *c03AltEnv, cs c03Case, out *c03Outcome) {
+	c03MutatePayload(s, env, cs, out)
+	if cs.Hdr == "" || cs.Bcast || !out.Applied {
+		return
+	}
+	hdrChanged := false
+	for _, e := range s.Flight {
+		if e.Tag != "/mut" {
+			continue
+		}
+		rcpt := e.To
+		if n := s.Nodes[e.To]; n != nil {
+			rcpt = n.ID
+		}
+		to := e.Msg.To
+		switch cs.Hdr {
+		case "to-cleared":
+			to = ""
+		case "to-explicit":
+			to = rcpt
+		case "to-sender":
+			to = env.E
+		case "to-other":
+			for _, id := range s.IDs {
+				if id != env.E && id != rcpt {
+					to = id
+					break
+				}
+			}
+		}
+		if to != e.Msg.To {
+			m := *e.Msg
+			m.To = to
+			e.Msg, e.Valid = &m, false
+			hdrChanged = true
+		}
+	}
+	if hdrChanged {
+		out.Changed = true
+	} else if cs.Field == "<message>" && cs.Alt == "none" {
+		out.Applied, out.Note = false, "header alteration does not change this message"
+	}
+}
+
+func c03MutatePayload(s *Sim, env *c03AltEnv, cs c03Case, out *c03Outcome) {
 	var heldEnvs []*Env
 	for _, e := range s.Flight {
 		if e.Tag == "/held" {
@@ -1196,6 +1372,9 @@ func c03Mutate(s *Sim, env *c03AltEnv, cs c03Case, out *c03Outcome) {
 	}
 	if cs.Field == "<message>" {
 		switch altA {
+		case "none":
+			// header-level alteration alone (applied by c03Mutate)
+			out.Applied = true
 		case "drop":
 			var keep []*Env
 			for _, e := range s.Flight {
@@ -1311,6 +1490,9 @@ type c03Field struct {
 	Field string
 	Paths []string
 	Class string
+	// p2p messages: whether the sender addresses them (To set) and to how many distinct recipients it sends this kind
+	Addressed bool
+	Rcpts     int
 }
 
 // enumerate lists E's outgoing message kinds and their field paths from an honest reference run.
@@ -1320,6 +1502,7 @@ func c03Enumerate(ref *Sim, E party.ID) []c03Field {
 		bc bool
 	}
 	seen := map[mk]bool{}
+	info := map[mk][2]int{}
 	var out []c03Field
 	for _, m := range ref.Nodes[E].Out {
 		k := mk{int(m.RoundNumber), m.Broadcast}
@@ -1327,6 +1510,17 @@ func c03Enumerate(ref *Sim, E party.ID) []c03Field {
 			continue
 		}
 		seen[k] = true
+		addressed, rcpts := m.To != "", 0
+		if !m.Broadcast {
+			tos := map[party.ID]bool{}
+			for _, x := range ref.Nodes[E].Out {
+				if x.RoundNumber == m.RoundNumber && !x.Broadcast && x.To != "" {
+					tos[x.To] = true
+				}
+			}
+			rcpts = len(tos)
+		}
+		info[k] = [2]int{map[bool]int{true: 1}[addressed], rcpts}
 		out = append(out, c03Field{Round: k.r, Bcast: k.bc, Field: "<message>", Paths: []string{"."}, Class: "message"})
 		t, err := c03CborParse(m.Data)
 		if err != nil {
@@ -1343,6 +1537,10 @@ func c03Enumerate(ref *Sim, E party.ID) []c03Field {
 			out = append(out, c03Field{Round: k.r, Bcast: k.bc, Field: f, Paths: []string{l.Path}, Class: c03NodeClass(l.N)})
 		}
 	}
+	for i := range out {
+		x := info[mk{out[i].Round, out[i].Bcast}]
+		out[i].Addressed, out[i].Rcpts = x[0] == 1, x[1]
+	}
 	return out
 }
 
@@ -1356,7 +1554,15 @@ type c03Plan struct {
 	OnePerPart   bool // one rng-chosen leaf field per top-level part of every message; splits only on broadcasts
 	SplitBcast   bool // per-recipient different alterations only on broadcast messages
 	AllOfRound   int  // with OnePerPart: every leaf field of this round is kept
+	// Headers: header-level alterations of `To` on p2p messages. 0 = none; 1 = each alone, plus ONE rng-chosen header
+	// alteration combined with the first chosen payload alteration of every field; 2 = each alone, plus ONE rng-chosen header
+	// alteration combined with every payload alteration; 3 = each alone and EVERY one combined with every payload alteration.
+	// With Headers > 0 the p2p scalars also get the "consistent at another evaluation point" alterations.
+	Headers int
 }
+
+// alterations of a p2p scalar that keep it consistent with what E sent elsewhere (added when plan.Headers > 0)
+var c03P2PScalarAlts = []string{"copy-recipient", "interp0"}
 
 func c03Cases(c *ctx, p *c03Proto, plan c03Plan) []c03Case {
 	rng := c.res.Rng
@@ -1403,10 +1609,17 @@ func c03Cases(c *ctx, p *c03Proto, plan c03Plan) []c03Case {
 			if plan.OnePerPart && !chosen[fi] && !(plan.AllOfRound == f.Round && f.Class != "message") {
 				continue
 			}
-			if f.Class == "message" && !plan.MsgLevel {
+			hdrs := []string(nil)
+			if plan.Headers > 0 && !f.Bcast {
+				hdrs = c03HeaderAlts(f.Addressed, len(ids))
+			}
+			if f.Class == "message" && !plan.MsgLevel && hdrs == nil {
 				continue
 			}
 			alts := c03AltsByClass[f.Class]
+			if f.Class == "message" && !plan.MsgLevel {
+				alts = nil
+			}
 			if plan.AltsPerField > 0 && len(alts) > plan.AltsPerField {
 				if plan.AltsPerField >= 4 {
 					alts = alts[:plan.AltsPerField]
@@ -1434,6 +1647,9 @@ func c03Cases(c *ctx, p *c03Proto, plan c03Plan) []c03Case {
 				}
 				paths = sel
 			}
+			if hdrs != nil && f.Class == "scalar" && f.Rcpts >= 2 {
+				alts = append(append([]string{}, alts...), c03P2PScalarAlts...)
+			}
 			add := func(path, alt string) {
 				cs := c03Case{Proto: p.Name, Cheater: string(E), Round: f.Round, Bcast: f.Bcast, Field: f.Field, Path: path, Alt: alt, Seed: rng.Int63()}
 				if len(p.IDs) != 3 || p.Two {
@@ -1442,7 +1658,34 @@ func c03Cases(c *ctx, p *c03Proto, plan c03Plan) []c03Case {
 					}
 				}
 				cs.Key = cs.key("C03")
-				cases = append(cases, cs)
+				if alt != "none" {
+					cases = append(cases, cs)
+				}
+				if hdrs != nil && alt != "drop" && !strings.HasPrefix(alt, "split:") {
+					// the same payload alteration under an altered recipient header
+					hs := hdrs
+					if plan.Headers < 3 && alt != "none" {
+						hs = []string{hdrs[rng.Intn(len(hdrs))]}
+						if plan.Headers == 1 && (alt != alts[0] || path != paths[0]) {
+							hs = nil
+						}
+					}
+					for _, h := range hs {
+						c3 := cs
+						c3.Hdr, c3.Seed = h, rng.Int63()
+						c3.Key = c3.key("C03")
+						cases = append(cases, c3)
+						if alt == "none" && bcastRounds[f.Round] {
+							c4 := c3
+							c4.Order, c4.Seed = "p2p-first", rng.Int63()
+							c4.Key = c4.key("C03")
+							cases = append(cases, c4)
+						}
+					}
+				}
+				if alt == "none" {
+					return
+				}
 				if !f.Bcast && bcastRounds[f.Round] && !strings.HasPrefix(alt, "split:") && lateDone[fmt.Sprint(f.Round, f.Field)] < 2 {
 					// the same alteration with E's broadcast of that round arriving after the altered p2p message
 					lateDone[fmt.Sprint(f.Round, f.Field)]++
@@ -1456,6 +1699,9 @@ func c03Cases(c *ctx, p *c03Proto, plan c03Plan) []c03Case {
 				for _, alt := range alts {
 					add(path, alt)
 				}
+			}
+			if f.Class == "message" && hdrs != nil {
+				add(".", "none") // the header-level alterations alone
 			}
 			// per-recipient different alterations (equivocation when the message is a broadcast)
 			if plan.Splits && len(ids) >= 3 && f.Class != "message" && (f.Bcast || !(plan.OnePerPart || plan.SplitBcast)) {
@@ -1511,6 +1757,10 @@ func c03ProtoByName(m *c03Mat, name string) *c03Proto {
 		return c03ProtoFrostKeygen(m, false)
 	case "taproot-frost-keygen":
 		return c03ProtoFrostKeygen(m, true)
+	case "frost-refresh":
+		return c03ProtoFrostRefresh(m, false)
+	case "taproot-frost-refresh":
+		return c03ProtoFrostRefresh(m, true)
 	case "frost-sign":
 		return c03ProtoFrostSign(m, false)
 	case "taproot-frost-sign":
@@ -1547,7 +1797,15 @@ func c03Sweep(c *ctx, m *c03Mat, names []string, planOf func(p *c03Proto) c03Pla
 		t0 := time.Now()
 		cases := c03Cases(c, p, planOf(p))
 		outs := c03RunAll(p, cases)
-		c.res.Note("%s: %d cases in %.1f s", name, len(cases), time.Since(t0).Seconds())
+		nh, th, tall := 0, 0.0, 0.0
+		for _, out := range outs {
+			tall += out.CPUSec
+			if out.Case.Hdr != "" {
+				nh++
+				th += out.CPUSec
+			}
+		}
+		c.res.Note("%s: %d cases in %.1f s (worker-seconds %.0f; %d cases with an altered To header: %.0f worker-seconds)", name, len(cases), time.Since(t0).Seconds(), tall, nh, th)
 		for _, out := range outs {
 			judge(p, out)
 		}
@@ -1572,7 +1830,10 @@ func c03Describe(out *c03Outcome) string {
 func runC03(c *ctx) {
 	c.res.Rule = "catalogue from live messages: protocol x cheater position x round x message kind x CBOR field path x alteration " +
 		"(boundary values, copies from other senders/rounds/fields, fresh valid-looking values, structural damage, recipient/round/sender substitution, " +
-		"per-recipient different alterations); quick: FROST(+taproot) and Doerner every field x 6, CMP sign every field x 2, CMP presign-online every field; " +
+		"per-recipient different alterations); p2p messages also with the recipient header To altered (cleared / another party / the sender / made explicit), alone and combined " +
+		"with the payload alterations, delivered to the original recipient; p2p scalars also replaced by the value sent to another recipient and by the interpolation at 0 of " +
+		"the values sent to all recipients; quick: FROST keygen, refresh, sign (+taproot) and Doerner every field x 6 (x every header alteration), CMP sign every field x 2 " +
+		"(one header alteration per field), CMP presign-online every field; " +
 		"non-trivial = the alteration applied and changed delivered bytes; distinct by (case key, cheater, path)"
 	orc := newC03Oracle(c)
 	if c.replay != "" {
@@ -1601,7 +1862,7 @@ func runC03(c *ctx) {
 		// an honest set-up session that does not complete is itself a finding (not of C03): report, continue with the rest
 		c.res.Note("set-up session failed: %s", e)
 	}
-	light := []string{"frost-keygen", "taproot-frost-keygen", "frost-sign", "taproot-frost-sign", "doerner-keygen", "doerner-sign"}
+	light := []string{"frost-keygen", "taproot-frost-keygen", "frost-refresh", "taproot-frost-refresh", "frost-sign", "taproot-frost-sign", "doerner-keygen", "doerner-sign"}
 	heavy := []string{"cmp-sign", "cmp-presign-online"}
 	if only != "" {
 		light, heavy = strings.Split(only, ","), nil
@@ -1613,6 +1874,7 @@ func runC03(c *ctx) {
 	for _, n := range append(light, heavy...) {
 		switch {
 		case strings.Contains(n, "taproot") && m.tapCfg == nil, strings.HasPrefix(n, "frost-sign") && m.frostCfg == nil,
+			n == "frost-refresh" && m.frostCfg == nil,
 			n == "doerner-sign" && (m.dR == nil || m.dS == nil), c03IsCMP(n) && n != "cmp-keygen" && m.cmpCfg == nil,
 			n == "cmp-presign-online" && m.cmpPre == nil:
 			continue
@@ -1629,18 +1891,18 @@ func runC03(c *ctx) {
 			// budget ~15 min on 16 cores: CMP runs cost 10-25 CPU-seconds each
 			switch p.Name {
 			case "cmp-sign":
-				return c03Plan{AltsPerField: 3, Instances: 1, Positions: 1, Splits: true, SplitBcast: true, MsgLevel: true}
+				return c03Plan{AltsPerField: 3, Instances: 1, Positions: 1, Splits: true, SplitBcast: true, MsgLevel: true, Headers: 2}
 			case "cmp-presign", "cmp-keygen", "cmp-refresh":
-				return c03Plan{AltsPerField: 2, Instances: 1, Positions: 1, Splits: true, SplitBcast: true, MsgLevel: true}
+				return c03Plan{AltsPerField: 2, Instances: 1, Positions: 1, Splits: true, SplitBcast: true, MsgLevel: true, Headers: 1}
 			case "cmp-presign-full":
 				return c03Plan{AltsPerField: 2, Instances: 1, Positions: 1, OnePerPart: true, AllOfRound: 8, Splits: true}
 			}
-			return c03Plan{Splits: true, MsgLevel: true, Instances: 3}
+			return c03Plan{Splits: true, MsgLevel: true, Instances: 3, Headers: 3}
 		}
 		if p.Heavy {
-			return c03Plan{AltsPerField: 2, Instances: 1, Positions: 1, Splits: false, MsgLevel: true}
+			return c03Plan{AltsPerField: 2, Instances: 1, Positions: 1, Splits: false, MsgLevel: true, Headers: 1}
 		}
-		return c03Plan{AltsPerField: 6, Instances: 2, Splits: true, MsgLevel: true}
+		return c03Plan{AltsPerField: 6, Instances: 2, Splits: true, MsgLevel: true, Headers: 3}
 	}
 	c03Sweep(c, m, names, planOf, func(p *c03Proto, out *c03Outcome) { c03Judge(c, orc, p, out) })
 	for op, k := range orc.fallback {
